@@ -48,6 +48,8 @@ import socket as _socket
 from lib import vfmt
 
 PROPERTY = 'C14'
+import isolation as _iso
+ISOLATION = [(n, getattr(_iso, n)) for n in ['thrift_serializer']]      # instance-isolation obligation (harness/isolation.py)
 SOURCE_IMPORTS = ['ScalesModel.Model.ThriftCodec']
 SOURCE_CONSTANTS = {
     'Scales.ThriftCodec.mtCall': ('from thrift.Thrift import TMessageType as T', 'T.CALL'),
